@@ -3,7 +3,7 @@ CONSTANTS
   Id = {1, 2, 3, 4}
   TopT = 10
   InsTS = {0, 1, 2, 3}
-  Walls = {0, 1, 2, 4}
+  Walls = {1, 2, 4}
   Modes = {"now", "top"}
   MaxSteps = 6
   MaxExt = 2
